@@ -1,8 +1,175 @@
-"""Property-specific executors beyond the storm/sweep engine (filled in step by step)."""
+"""Property-specific executors beyond the storm/sweep plans: multi-build replay (C17), constant
+evaluation (C08), noexcept table (C18), conversion grid / archetypes / twin comparison (C13),
+exhaustive small grids (C12, C16)."""
+import hashlib
+import os
+import subprocess
+import sys
+import time
 
+import build as B
+import driver as D
+import universes as UV
+
+VERIF = D.VERIF
 SPECIALS = {}
 
 
+def _special_violation(prop, oracle, op_kind, msg, replay_path, universe="-"):
+    v = D.Violation()
+    v.oracle = oracle
+    v.op_kind = op_kind
+    v.msg = msg
+    v.universe = universe
+    v.props = {int(prop[1:])}
+    v.prebuilt_replay = replay_path
+    return v
+
+
+# ------------------------------------------------------------------------------------------ C17
+C17_FLAVOURS = ["g20", "g11", "c11", "g14", "c14", "g17", "c17", "c20", "g23", "nocon20"]  # clang 14 -std=c++2b excluded, see DESIGN.md
+
+
+def _trace_of(binary, universe, world, ops):
+    path = os.path.join(VERIF, ".cache", "c17-%d.replay" % os.getpid())
+    with open(path, "w") as f:
+        f.write("universe %s\n%s\n" % (universe, world))
+        for o in ops:
+            f.write(o + "\n")
+    rc, out, err = D.run_proc([binary, "--replay", path, "--digests", "1"], timeout=120)
+    os.unlink(path)
+    return [l for l in out.splitlines() if l.startswith("T ") or l.startswith("DIGEST") or l.startswith("VIOL")]
+
+
+def _history_of(binary, universe, idx, seed, args):
+    rc, out, err = D.run_proc([binary, "--universe", universe, "--mode", "storm", "--seed", str(seed),
+                               "--runs", "%d:%d" % (idx, idx + 1), "--print-hist", "1"] + args, timeout=120)
+    world, ops = "world 0 120 1", []
+    for line in out.splitlines():
+        if line.startswith("PH world"):
+            world = line[3:]
+        elif line.startswith("PH op "):
+            ops.append(line[3:])
+    return world, ops
+
+
+def c17(prop, tier, seed, known):
+    q = tier == "quick"
+    us = UV.by_pack("c17")
+    runs = 3000 if q else 40000
+    args = ["--prop", "17", "--faults", "1", "--digests", "1", "--nops", "24" if q else "40"]
+    kargs = D.known_args_for(prop, known)
+    digests = {}
+    binaries = {}
+    stats = {}
+    sigs = set()
+    samples = []
+    foreign = 0
+    err = None
+    for fl in C17_FLAVOURS:
+        try:
+            binaries[fl] = B.build(fl, us)
+        except B.BuildError as e:
+            return dict(error="build of flavour %s failed: %s\n%s" % (fl, e, e.output[-1500:]))
+        res = D.run_stage(binaries[fl], fl, us, "storm", runs, seed, args + kargs)
+        digests[fl] = res.digests
+        D.add_stats(stats, res.stats)
+        if fl == C17_FLAVOURS[0]:
+            sigs = res.sigs
+            samples = res.samples[:2]
+        foreign += len(res.violations)
+        if res.error:
+            err = res.error
+    base = C17_FLAVOURS[0]
+    violations = []
+    mismatches = 0
+    seen_first_diff = set()
+    for key, (h0, idx) in sorted(digests[base].items(), key=lambda kv: kv[1][1]):
+        for fl in C17_FLAVOURS[1:]:
+            other = digests[fl].get(key)
+            if other is None or other[0] == h0:
+                continue
+            mismatches += 1
+            if len(violations) >= 3:
+                continue
+            universe, sd = key
+            world, ops = _history_of(binaries[base], universe, idx, seed, args)
+            ta = _trace_of(binaries[base], universe, world, ops)
+            tb = _trace_of(binaries[fl], universe, world, ops)
+            first = next((i for i, (a, b) in enumerate(zip(ta, tb)) if a != b), None)
+            if first is None:
+                continue
+            # minimise: shortest prefix that still differs
+            keep = ops
+            for n in range(1, len(ops) + 1):
+                if _trace_of(binaries[base], universe, world, ops[:n]) != _trace_of(binaries[fl], universe, world, ops[:n]):
+                    keep = ops[:n]
+                    break
+            # then drop earlier ops greedily
+            i = 0
+            while i < len(keep) - 1:
+                cand = keep[:i] + keep[i + 1:]
+                if _trace_of(binaries[base], universe, world, cand) != _trace_of(binaries[fl], universe, world, cand):
+                    keep = cand
+                else:
+                    i += 1
+            ta = _trace_of(binaries[base], universe, world, keep)
+            tb = _trace_of(binaries[fl], universe, world, keep)
+            first = next((i for i, (a, b) in enumerate(zip(ta, tb)) if a != b), 0)
+            opk = keep[-1].split()[1] if keep else "?"
+            sig = (opk, ta[first] if first < len(ta) else "")
+            if sig in seen_first_diff:
+                continue
+            seen_first_diff.add(sig)
+            os.makedirs(os.path.join(VERIF, "replays"), exist_ok=True)
+            path = os.path.join(VERIF, "replays", "C17-%s-%s.replay" % (universe, sd))
+            msg = "builds %s and %s disagree at step %d: [%s] vs [%s]" % (
+                base, fl, first, ta[first] if first < len(ta) else "", tb[first] if first < len(tb) else "")
+            with open(path, "w") as f:
+                f.write("svsim-replay 1\nproperty C17\nuniverse %s\nflavour special:c17\nbuilds %s %s\n"
+                        "expect std.digest\nnote %s\n%s\n" % (universe, base, fl, msg, world))
+                for o in keep:
+                    f.write(o + "\n")
+            violations.append((None, _special_violation(prop, "std.digest", opk, msg, path, universe)))
+    cov = dict(extra_evaluations=int(stats.get("evaluations", 0)),
+               extra_distinct=len(sigs),
+               extra_samples=samples,
+               builds=C17_FLAVOURS,
+               seeds_compared=len(digests[base]),
+               digest_mismatches=mismatches,
+               oracle_violations_in_any_build=foreign,
+               operations=int(stats.get("ops", 0)),
+               faults={k: dict(armed=int(stats.get("armed_" + k, 0)), fired=int(stats.get("fired_" + k, 0)))
+                       for k in D.EV_KINDS})
+    return dict(coverage=cov, violations=violations, error=err)
+
+
+SPECIALS["C17"] = c17
+
+
+def replay_c17(path, d):
+    builds = None
+    with open(path) as f:
+        for line in f:
+            if line.startswith("builds "):
+                builds = line.split()[1:3]
+    if not builds:
+        print("replay file names no builds")
+        return 2
+    us = UV.by_pack("c17")
+    ta = _trace_of(B.build(builds[0], us), d["universe"], d["world"], d["ops"])
+    tb = _trace_of(B.build(builds[1], us), d["universe"], d["world"], d["ops"])
+    for a, b in zip(ta, tb):
+        print(("   " if a == b else "!! ") + a + ("" if a == b else "\n   %s: %s" % (builds[1], b)))
+    if ta != tb:
+        print("VIOLATION property=C17 replay=%s" % path)
+        return 1
+    print("[replay] builds %s and %s agree on this history" % tuple(builds))
+    return 0
+
+
 def replay_special(prop, path, d):
-    print("no special replay for", prop)
+    if d["flavour"] == "special:c17":
+        return replay_c17(path, d)
+    print("no special replay for", d["flavour"])
     return 2
